@@ -29,6 +29,10 @@ CLAIMED = {
    text="Step invariant evaluated on the states reached by the seeded mutation histories of the structure engines (so states with vacant node and edge indices, swap-renumbered graphs, parallel edges and self-loops are the norm): through the visit traits only, node_identifiers/node_references/node_count/to_index/from_index/node_bound, edge_references/edge_count, neighbors/edges/neighbors_directed/edges_directed per node and is_adjacent for every ordered pair of live nodes must describe one graph; the same battery is then run on &G, Reversed, UndirectedAdaptor, NodeFiltered, EdgeFiltered, Frozen and 11 depth-2 stackings against the base view transformed the obvious way. The oracle is self-consistency of the views (ground set = the structure's own node_identifiers + edge_references), independent of any reference model. Exploration.",
    note="UndirectedAdaptor is applied to directed bases only (over an undirected base it doubles every edge by construction) and the multiplicity with which it lists a self-loop (1 or 2) is left open; a run whose structure disagrees with the generation-driving model is discarded and counted, not reported here.",
    technique="deterministic simulation: invariant checked after every step of seeded mutation histories (cross-view consistency)"),
+ "C07": dict(engine="replicas", design="DESIGN.md §2 C07 + Appendix A",
+   text="Replica agreement: one seeded abstract graph (0-10 labelled nodes, weighted edges, simple or multigraph, directed or undirected, optionally with negative weights) is delivered to up to seven replicas -- Graph<u32> built cleanly (the reference), Graph<u8>, StableGraph<u16>, MatrixGraph<u16>, GraphMap, Csr<u32>, adj::List<u8> -- by a simulated transport that permutes node and edge insertion order, pads the stream with nodes and edges that are removed again (vacant indices below node_bound/edge_bound, swap-renumbering), re-delivers idempotent updates and takes neutral detours (reverse twice, clear_edges + re-add). Every replica must first pass a same-abstract-graph pre-check (otherwise it is discarded and counted). Then 37 algorithm/walker entry points are run on every replica whose type satisfies the trait bounds, each under two simulator-chosen hasher seeds (hashbrown's default hasher is seeded by the simulator) and with fresh and reused workspaces (DfsSpace, TarjanScc); answers are mapped back to labels and compared with the reference: equal where unique (reachable sets, distances, SCC partitions, dominators, articulation points, cliques, max-flow value, matching size, MST weight, page rank, simple-path sets, graph6 meaning), valid and equally optimal where not (toposort, flows, matchings, MST edges, astar path, shortest-path trees, negative cycles), valid only for heuristics (dsatur, greedy matching, feedback arc set). A panic on one encoding where the reference succeeds is a violation. Exploration.",
+   note="Only cheap validators are used, no reference implementation of any algorithm; if the reference replica's own answer fails a validator the comparison is skipped (that is the per-algorithm properties' business, which are not applicable to this technique). Three recorded findings (maximum_matching on directed graphs, page_rank on non-compact index spaces, find_negative_cycle's order-dependent bogus cycle) are reported as KNOWN-FINDING lines; all other classes stay active.",
+   technique="deterministic simulation: seeded replicas of one abstract graph under a reordering/padding transport and simulator-owned hasher seeds; agreement oracle"),
  "C14": dict(engine="history:acyclic", design="DESIGN.md §2 C14",
    text="Seeded search over Acyclic<DiGraph> and Acyclic<StableDiGraph> histories (four index widths): add_node, try_add_edge, try_update_edge, Build::add_edge/update_edge, remove_edge, remove_node (present, absent, vacant, repeated; biased to non-last nodes of a DiGraph so another node is renumbered), is_valid_edge probes, try_from_graph / TryFrom on seeded cyclic and acyclic graphs with holes. A reachability DFS on the reference model predicts accept / SelfLoop / Cycle exactly; after every step the inner graph must equal the model (same full observation as C01/C02), nodes_iter must list exactly the live nodes, get_position/at_position must be inverse, range(..) must equal nodes_iter, nodes_iter must be sorted by position and every edge must go from an earlier to a later position; a rejected insertion or a removal of an absent node must leave graph and order sequence identical; is_valid_edge must agree with the following insertion. Exploration.",
    note="Edge insertions are only issued between existing nodes (the documentation says they panic otherwise); removal of an absent node may return None or panic, the state must be intact either way.",
